@@ -481,6 +481,7 @@ class Ownership(_CHarness):
            'acq'      pool.next_idle_worker(maybe_acquire=True)
            'acq_all'  pool._acquire_all()
            'rel_all'  pool.release_all()
+           'rel_list' pool.release_all(<explicit list of all its workers>)
            'rel_one'  worker.release() if the pool believes it owns the worker
     nworkers: 1 | 2 shared workers
   """
@@ -539,6 +540,14 @@ class Ownership(_CHarness):
             for a in mine:
               del self.beliefs[a]
             pool.release_all()
+            self.trace.append((i, op, mine))
+          elif op == 'rel_list':
+            # release_all with an explicit worker list (as as_completed passes
+            # its unused workers): only what the pool owns may be released
+            mine = [a for a, o in self.beliefs.items() if o == i]
+            for a in mine:
+              del self.beliefs[a]
+            pool.release_all(list(pool.all_workers))
             self.trace.append((i, op, mine))
           elif op == 'rel_one':
             mine = [w for w in pool.all_workers
@@ -765,7 +774,36 @@ def c14_expressions(depth):
             lf.trace(fx.mul)(a(lf), 2, cache_result_=True), 1)
       cached.append((f'add[{flag}-cached]({na},1)#cached', build))
       cached.append((f'add[{flag}-cached]({na},1)#cached', build))
-  return exprs + cached
+  # arguments whose == is not a plain bool (numpy arrays), cached, and sent
+  # several times as the same object
+  import numpy as np
+  arrays = []
+  for flag in (False, True):
+    tag = '#cached#same-object' if flag else '#same-object'
+    arrays.append((f'add(arr,arr){tag}', lambda lf, flag=flag: lf.trace(fx.add)(
+        np.array([1, 2]), np.array([3, 4]), cache_result_=flag)))
+    arrays.append((f'identity(dict(a=arr)){tag}',
+                   lambda lf, flag=flag: lf.trace(fx.identity)(
+                       {'a': np.array([1.5, 2.5])}, cache_result_=flag)))
+    arrays.append((f'mul(arr,b=2){tag}', lambda lf, flag=flag: lf.trace(fx.mul)(
+        np.array([[1, 2], [3, 4]]), b=2, cache_result_=flag)))
+  return exprs + cached + arrays
+
+
+def _deep_equal(a, b):
+  import numpy as np
+  if type(a) is not type(b):
+    return False
+  if isinstance(a, np.ndarray):
+    return a.shape == b.shape and a.dtype == b.dtype and bool(np.array_equal(a, b))
+  if isinstance(a, dict):
+    return a.keys() == b.keys() and all(_deep_equal(a[k], b[k]) for k in a)
+  if isinstance(a, (list, tuple)):
+    return len(a) == len(b) and all(_deep_equal(x, y) for x, y in zip(a, b))
+  try:
+    return bool(a == b)
+  except Exception:  # pylint: disable=broad-except
+    return False
 
 
 def _same(a, b):
@@ -832,6 +870,12 @@ class RemoteEval(_CHarness):
         for name, build in exprs:
           expr = build(lf)
           self.rows.append((name, local(build(lf)), remote(client, expr)))
+          if name.endswith('#same-object'):
+            # the very same expression object (same persistent id) sent again:
+            # the server finds it in its cache
+            for k in (2, 3):
+              self.rows.append((f'{name}#{k}', local(build(lf)),
+                                remote(client, expr)))
       elif part == 'remote-object':
         ro = client.get_result(lf.trace(fx.Box)(3, lazy_result_=True))
         self.extra.append(('type', type(ro).__name__))
@@ -1043,10 +1087,7 @@ class RemoteEval(_CHarness):
     if loc[0] != rem[0]:
       return False
     if loc[0] == 'ok':
-      try:
-        return bool(loc[1] == rem[1]) and type(loc[1]) is type(rem[1])
-      except Exception:  # pylint: disable=broad-except
-        return False
+      return _deep_equal(loc[1], rem[1])
     # same exception type and message
     return loc[1] == rem[1] and loc[2] == rem[2]
 
@@ -1071,10 +1112,11 @@ class ShardedPipelines(_CHarness):
 
   def __init__(self, W=1, S=1, total=4, batch=2, ibs=1, fuse=True, menu=(),
                retry=None, agg=True, timeout=60, mode='preempt', push=True,
-               slow=0, pause=False):
+               slow=0, pause=False, sliced=False):
     self.params = dict(W=W, S=S, total=total, batch=batch, ibs=ibs, fuse=fuse,
                        menu=list(menu), retry=retry, agg=agg, timeout=timeout,
-                       mode=mode, push=push, slow=slow, pause=pause)
+                       mode=mode, push=push, slow=slow, pause=pause,
+                       sliced=sliced)
     if pause:
       # the orchestrating loop may be arbitrarily slow at any one of its lines
       self.pause_focus = ('iterate', 'sharded_pipelines_as_iterator',
@@ -1113,8 +1155,9 @@ class ShardedPipelines(_CHarness):
       if p['retry'] is not None:
         kw['retry_threshold'] = p['retry']
       try:
+        define = fx.sliced_pipeline if p['sliced'] else fx.sharded_pipeline
         for b in m.orchestrate.sharded_pipelines_as_iterator(
-            pool, fx.sharded_pipeline, total=p['total'], batch_size=p['batch'],
+            pool, define, total=p['total'], batch_size=p['batch'],
             num_shards=p['S'], fuse=p['fuse'], agg=p['agg'], result_queue=rq,
             **kw):
           self.batches.append(b)
@@ -1149,8 +1192,9 @@ class ShardedPipelines(_CHarness):
 
   def reference(self):
     p = self.params
-    it = fx.sharded_pipeline(p['total'], p['batch'], fuse=p['fuse'],
-                             agg=p['agg']).make().iterate()
+    define = fx.sliced_pipeline if p.get('sliced') else fx.sharded_pipeline
+    it = define(p['total'], p['batch'], fuse=p['fuse'],
+                agg=p['agg']).make().iterate()
     batches = [b for b in it]
     return batches, (it.agg_result if p['agg'] else None)
 
@@ -1162,7 +1206,7 @@ class ShardedPipelines(_CHarness):
   def _cfg(self):
     p = self.params
     return (f'W{p["W"]}:S{p["S"]}:{"fused" if p["fuse"] else "unfused"}:'
-            f'ibs{p["ibs"]}')
+            f'ibs{p["ibs"]}{":sliced" if p.get("sliced") else ""}')
 
   def check(self, res):
     p = self.params
